@@ -170,9 +170,9 @@ struct Sem {
         case Op::ENDMARK: stop_at(o.pos); pc++; break;
         case Op::GOTO: stop_at(o.pos); jump_to(f, o, o.s->target, pc); break;
         case Op::IF: stop_at(o.pos); if (f.env[o.s->var] == o.s->c) jump_to(f, o, o.s->target, pc); else pc++; break;
-        case Op::STOP: stop_at(o.pos); halted = true; res.stopped_by_stop = true; return 0;
+        case Op::STOP: stop_at(o.pos); halted = true; res.stopped_by_stop = true; res.final_frames = snapshot(); return 0;
         case Op::PROGEND: stop_at(o.pos); return f.env[f.r->out];
-        case Op::MAINEND: halted = true; return 0;
+        case Op::MAINEND: halted = true; res.final_frames = snapshot(); return 0;
       }
     }
   }
@@ -180,7 +180,6 @@ struct Sem {
     Frame root; root.r = &mainr; stack.push_back(&root);
     run(root);
     res.finished = halted && !out_of_budget;
-    if (res.finished) res.final_frames = snapshot();
     return res;
   }
 };
